@@ -1,5 +1,6 @@
 import KDVerif.Driver.J
 import KDVerif.Model.Selection
+import KDVerif.Model.C03Spec
 open Lean KDVerif.J
 
 namespace KDVerif.Selection.Driver
@@ -49,6 +50,13 @@ def cutTable (j : Json) (k : String) : Except String (Rat → Nat → Nat) := do
 
 def handle (op : String) (j : Json) : Except String Json :=
   match op with
+  | "sel.exactCut" => do
+    -- the exact-rational cuts of `Model/C03Spec` (the functions the `*_exact_*` theorems of C03 are about)
+    let rows ← (← arr j "rows").toList.mapM (fun r => do
+      let a ← r.getArr?
+      let p ← asRat (Json.arr #[a[0]!, a[1]!])
+      pure (p, ← a[2]!.getNat?))
+    pure (Json.arr (rows.map (fun r => ofNatList [exactCutF r.1 r.2, exactCutC r.1 r.2])).toArray)
   | "sel.classFilter" => do
     pure (answer (classFilter (← intList (← val j "cls")) (← optIntList j "valid") (← optIntList j "invalid")))
   | "sel.percentFilter" => do
